@@ -274,6 +274,16 @@ def run_clog2(sh):
   for k in range(1, 1101):
     for N in ((1 << k) - 1, 1 << k, (1 << k) + 1):
       one(N)
+  # N given as a Bits object (a width computed from a parameter that is a Bits constant)
+  from pymtl3.datatypes import Bits
+  for k in range(1, 1000, 7):
+    for N in ((1 << k) - 1, 1 << k, (1 << k) + 1):
+      if N < 1 or N.bit_length() > 1023: continue
+      try: got = clog2(Bits(N.bit_length(), N))
+      except Exception as e: got = "raise " + type(e).__name__
+      sh.count("clog2_checks"); sh.count("clog2_bits_operand_checks")
+      if got != R.clog2(N):
+        sh.violation("clog2-wrong", {"N": hex(N), "operand": f"Bits{N.bit_length()}", "got": got, "expected": R.clog2(N)})
   # real N >= 1 (python true division gives them: clog2( nbits / 8 )): min{k : 2^k >= N} with exactly representable values
   from fractions import Fraction
   for k in range(0, 50):
